@@ -7,14 +7,16 @@ use std::io::{self, Read};
 pub(crate) const POLY: u64 = 0x003D_A335_8B4D_C173; // restic/rustic default polynomial, degree 53
 const WINDOW: usize = 64;
 
-/// Reader over a symbolic byte array.  Every call returns a *symbolic* number
-/// 1..=min(avail, buf.len()) of bytes, or (at most `intr` times) ErrorKind::Interrupted,
-/// so read fragmentation is a solver variable.
+/// Reader over a symbolic byte array.  Up to `short` calls return a *symbolic* number
+/// 1..=min(avail, buf.len()) of bytes (short reads at solver-chosen points), afterwards every call returns
+/// all it can; up to `intr` calls fail with ErrorKind::Interrupted.  Fragmentation is a solver variable;
+/// the number of short reads per harness run is bounded so that std's read_to_end loop has a small bound.
 pub(crate) struct FragReader<const N: usize, const INTR: bool> {
     pub data: [u8; N],
     pub len: usize,
     pub pos: usize,
     pub intr: u8,
+    pub short: u8,
 }
 impl<const N: usize, const INTR: bool> Read for FragReader<N, INTR> {
     fn read(&mut self, buf: &mut [u8]) -> io::Result<usize> {
@@ -27,13 +29,51 @@ impl<const N: usize, const INTR: bool> Read for FragReader<N, INTR> {
             return Err(io::Error::from(io::ErrorKind::Interrupted));
         }
         let max = avail.min(buf.len());
-        let n: usize = kani::any();
-        kani::assume(n >= 1 && n <= max);
-        buf[..n].copy_from_slice(&self.data[self.pos..self.pos + n]);
+        let mut n = max;
+        if self.short > 0 {
+            let k: usize = kani::any();
+            kani::assume(k >= 1 && k <= max);
+            if k < max { self.short -= 1; }
+            n = k;
+        }
+        // byte-wise with a constant trip count: a memcpy of symbolic size is far more expensive for CBMC
+        let mut i = 0;
+        while i < N {
+            if i < n { buf[i] = self.data[self.pos + i]; }
+            i += 1;
+        }
         self.pos += n;
         Ok(n)
     }
 }
+
+/// Model of std's provided `Read::read_to_end` (contract: read until EOF, append everything, retry on
+/// Interrupted).  std's implementation (probe buffers, capacity doubling, BorrowedBuf zero-filling) works on
+/// vectors of symbolic length and capacity and is out of CBMC's reach (100 loop iterations in 120 s, measured);
+/// the model reads through the same `Read::read` of the same reader - so read fragmentation stays symbolic -
+/// into a stack buffer and appends once.  Same trait shape as std::io::Read for Kani's trait-method stubbing.
+pub(crate) trait ReadToEndModel: Read {
+    fn read_to_end(&mut self, buf: &mut Vec<u8>) -> io::Result<usize> {
+        let mut tmp = [0u8; 96];
+        let mut total = 0usize;
+        let mut rounds = 0;
+        loop {
+            assert!(rounds < 8, "read_to_end model: more read calls than the harness bound");
+            rounds += 1;
+            match self.read(&mut tmp[total..]) {
+                Ok(0) => break,
+                Ok(n) => total += n,
+                Err(e) => {
+                    if e.kind() == io::ErrorKind::Interrupted { std::mem::forget(e); continue; }
+                    return Err(e);
+                }
+            }
+        }
+        buf.extend_from_slice(&tmp[..total]);
+        Ok(total)
+    }
+}
+impl<R: Read> ReadToEndModel for R {}
 
 /// p mod POLY for deg(p) <= 60, by shift-and-subtract (no tables, no rolling)
 fn polymod61(mut p: u64) -> u64 {
@@ -140,7 +180,7 @@ fn step_check<const N: usize, const L: usize, const SPAN: usize, const INTR: boo
     let mut data = [0u8; N];
     let mut i = 0;
     while i < N { data[i] = all[(unread + i) % 160]; i += 1; }
-    let reader = FragReader::<N, INTR> { data, len, pos: 0, intr };
+    let reader = FragReader::<N, INTR> { data, len, pos: 0, intr, short: 2 };
     let mut it = ChunkIter::new(rabin, size, min, max, reader, hint).unwrap();
     let mut buf = Vec::with_capacity(L);
     let mut i = 0;
@@ -189,18 +229,17 @@ fn step_check<const N: usize, const L: usize, const SPAN: usize, const INTR: boo
 //@ mem: 24
 //@ unwindset: calculate_out_table#0=64; calculate_out_table#1=258; calculate_mod_table#0=258; modulo#0=64
 //@ kernel: chunker::rabin::ChunkIter::{new,next}, check_rabin_params, rustic_cdc::Rabin64::{new_with_polynom,calculate_out_table,calculate_mod_table,reset_and_prefill_window,slide}, Polynom64::{modulo,degree}
-//@ bound: ONE call of next() from an arbitrary valid iterator state (inductive step: covers every chunk of streams of any length): polynomial 0x3DA3358B4DC173; (avg,min,max)=(64,64,72); 0..=12 unread look-ahead bytes left by the previous call, rolling hash disturbed by 0..=2 previously slid bytes, 0..=76 further stream bytes; every byte symbolic; every read returns a symbolic count 1..=min(avail,buf); size_hint 0; symbolic loops unwound 90, table loops 258/64
+//@ bound: ONE call of next() from an arbitrary valid iterator state (inductive step: covers every chunk of streams of any length): polynomial 0x3DA3358B4DC173; (avg,min,max)=(64,64,72); 0..=12 unread look-ahead bytes left by the previous call, rolling hash disturbed by 0..=2 previously slid bytes, 0..=76 further stream bytes; every byte symbolic; read fragmentation: up to 2 short reads of symbolic length at symbolic points, other reads full; size_hint usize::MAX (the archiver passes the file size); symbolic loops unwound 90, table loops 258/64
 //@ oracle: the chunk is the next c bytes of the remaining input with c == reference_cut (direct polynomial remainder over rustic's 64-byte window, no tables, no rolling): non-empty, min<=c<=max unless the stream ends, independent of read fragmentation and of the previous hash state; afterwards the iterator's look-ahead plus the reader's rest is exactly the remaining input (lossless continuation) and the state invariant holds; None only when nothing remains
+//@ stub: std::io::Read::read_to_end -> contract model (reads via the same Read::read until EOF, appends once)
 //@ assume: ChunkIter invariant between calls: pos <= buf.len() (established by new(), re-established by this step)
 //@ outside: look-ahead fills above 12 bytes (real buffer: 4 KiB; same code path); other polynomials; random_poly search
 #[kani::proof]
 #[kani::unwind(90)]
 #[kani::stub(std::backtrace::Backtrace::capture, crate::error::verif_harness::stub_backtrace_capture)]
-#[kani::stub(crate::error::RusticError::new, crate::error::verif_harness::stub_rustic_new)]
-#[kani::stub(crate::error::RusticError::attach_context, crate::error::verif_harness::stub_attach_context)]
-#[kani::stub(crate::error::RusticError::attach_source, crate::error::verif_harness::stub_attach_source)]
+#[kani::stub(std::io::Read::read_to_end, crate::chunker::rabin::verif_harness::ReadToEndModel::read_to_end)]
 pub(crate) fn c06_rabin_step_64_72() {
-    step_check::<76, 12, 8, false>(64, 64, 72, 0, 0);
+    step_check::<76, 12, 8, false>(64, 64, 72, 0, usize::MAX);
 }
 
 //@ harness: c06_rabin_step_64_80_interrupts
@@ -216,9 +255,7 @@ pub(crate) fn c06_rabin_step_64_72() {
 #[kani::proof]
 #[kani::unwind(102)]
 #[kani::stub(std::backtrace::Backtrace::capture, crate::error::verif_harness::stub_backtrace_capture)]
-#[kani::stub(crate::error::RusticError::new, crate::error::verif_harness::stub_rustic_new)]
-#[kani::stub(crate::error::RusticError::attach_context, crate::error::verif_harness::stub_attach_context)]
-#[kani::stub(crate::error::RusticError::attach_source, crate::error::verif_harness::stub_attach_source)]
+#[kani::stub(std::io::Read::read_to_end, crate::chunker::rabin::verif_harness::ReadToEndModel::read_to_end)]
 pub(crate) fn c06_rabin_step_64_80_interrupts() {
     step_check::<84, 16, 16, true>(64, 64, 80, 2, usize::MAX);
 }
@@ -240,10 +277,8 @@ const LOOK: usize = 24;
 #[kani::proof]
 #[kani::unwind(76)]
 #[kani::stub(std::backtrace::Backtrace::capture, crate::error::verif_harness::stub_backtrace_capture)]
-#[kani::stub(crate::error::RusticError::new, crate::error::verif_harness::stub_rustic_new)]
-#[kani::stub(crate::error::RusticError::attach_context, crate::error::verif_harness::stub_attach_context)]
-#[kani::stub(crate::error::RusticError::attach_source, crate::error::verif_harness::stub_attach_source)]
 #[kani::stub(alloc::fmt::format, crate::error::verif_harness::stub_format)]
+#[kani::stub(std::io::Read::read_to_end, crate::chunker::rabin::verif_harness::ReadToEndModel::read_to_end)]
 pub(crate) fn c06_rabin_accepted_params_step() {
     let size: usize = kani::any();
     let min: usize = kani::any();
@@ -262,7 +297,7 @@ pub(crate) fn c06_rabin_accepted_params_step() {
     let pos: usize = kani::any();
     kani::assume(fill <= LOOK && pos <= fill);
     let rabin = Rabin64::new_with_polynom(1, &POLY);
-    let mut it = ChunkIter::new(rabin, size, min, max, FragReader::<N, false> { data, len, pos: 0, intr: 0 }, 0).unwrap();
+    let mut it = ChunkIter::new(rabin, size, min, max, FragReader::<N, false> { data, len, pos: 0, intr: 0, short: 2 }, usize::MAX).unwrap();
     // arbitrary valid look-ahead state: buf = look[..fill], unread part = look[pos..fill]
     let mut buf = Vec::with_capacity(LOOK);
     buf.extend_from_slice(&look);
